@@ -229,6 +229,28 @@ def run(ctx, ncases, aspects, label, parallel=None, failures=False, iters=False)
         ls, keys = model_lines(c, r)
         all_lines += ls
         spans.append(keys)
+    # the whole interleaved history through the Stage model (shared counters): parallel stages only
+    stage_lines, stage_idx = [], []
+    for ci, (c, r) in enumerate(zip(cases, results)):
+        if c['cfg']['nworkers'] > 0 and not r.get('timeout'):
+            srcs = []
+            for st in c['streams']:
+                sub = dict(cfg=c['cfg'], table=st['table'], tail=st['tail'])
+                srcs.append('%s %s' % ('-' if st['tail'] is None else 'e%d' % st['tail'], ' '.join(pipelib.model_outcomes(sub))))
+            # streams are numbered by creation order in the model: map plan order
+            order = [s for s, a in c['plan'] if a == 'K']
+            remap = {s: k for k, s in enumerate(order)}
+            toks = ['K'] * len(order)
+            for t in pipelib.stage_events(r['events']):
+                si, e = t.split(':', 1)
+                if int(si) in remap:
+                    toks.append('%d:%s' % (remap[int(si)], e))
+            srcs_ordered = [srcs[s] for s in order]
+            stage_lines.append('pipe.stage %d %d %d 0 0 | %s | %s' % (c['cfg']['nworkers'], c['cfg']['extracache'],
+                               1 if c['cfg']['skipNone'] else 0, ' | '.join(srcs_ordered), ' '.join(toks)))
+            stage_idx.append(ci)
+    stage_out = core.run_driver(stage_lines) if stage_lines else []
+    stage_res = dict(zip(stage_idx, stage_out))
     mout = core.run_driver(all_lines) if all_lines else []
     pos = 0
     for c, r, keys in zip(cases, results, spans):
@@ -238,6 +260,17 @@ def run(ctx, ncases, aspects, label, parallel=None, failures=False, iters=False)
         ctx.count('multi_stream_scenarios')
         with ctx.guard(small):
             ok = judge(ctx, c, r, aspects, label)
+            ci = cases.index(c)
+            if ok and ci in stage_res:
+                so = stage_res[ci]
+                if not so.startswith('accept'):
+                    ctx.disagree('interleaved-history-accepted-by-stage-model', small, ' '.join(pipelib.stage_events(r['events']))[:600], so[:400])
+                else:
+                    ctx.count('stage_histories_validated')
+                    sd = dict(p.split('=', 1) for p in so.split(' ') if '=' in p)
+                    fi = r.get('final_info') or {}
+                    if (int(sd['processed']), int(sd['yielded'])) != (fi.get('processed'), fi.get('yielded')):
+                        ctx.disagree('stage-counters-equal-model', small, fi, dict(processed=sd['processed'], yielded=sd['yielded']))
             par = c['cfg']['nworkers'] > 0
             for (s, k) in keys:
                 out = mout[pos:pos + k]
